@@ -23,7 +23,7 @@ type fsckInfo struct {
 	BlocksOwned    int
 	HalfFreed      int // free inodes that still hold blocks (freeing in progress)
 	HalfFreedBlks  int
-	HalfFreedWhat  string // the first such inode, for reports
+	HalfFreedWhat  string   // the first such inode, for reports
 	HalfFreedInos  []uint64 // free inodes that hold blocks
 	LiveShrinking  []uint64 // inodes in use whose shrink mark is above their size (a truncation was interrupted)
 	Dirs, Files    int
